@@ -975,6 +975,9 @@ class ManifestRecursiveLoader:
                                 out[fullpath][1], e, diff)
                         # otherwise, make sure we have all checksums
                         out[fullpath][1].checksums.update(e.checksums)
+                        # the kept entry may have changed, so its Manifest
+                        # needs to be written as well
+                        self.updated_manifests.add(out[fullpath][0])
                         # and drop the duplicate
                         entries_to_remove.append(e)
                     else:
